@@ -13,6 +13,9 @@ Job objects = every chunk, and split/join of splitting stages (`jobObj`).
 import Martian.Sched
 import Proofs.Sched
 import Proofs.SchedTrans
+import Martian.SchedProgress
+import Proofs.SchedProgress
+import Proofs.SchedRestart
 
 namespace Props.C05
 open Martian.Sched
@@ -116,6 +119,90 @@ theorem fullreset_wipes_finished_work :
     | .ok s => s.dst ⟨0, 0, .chunk 0⟩ == some .complete && enabled s (.reset ⟨0, 0, .chunk 0⟩)
     | .error _ => false) = true := by decide
 
+/-! ### the continuation after a restart completes (both reset modes) -/
+
+/-- `restart_completes` (default reset mode): take ANY reachable state `s0` without failure
+markers on disk — in particular the state right after any accepted history followed by
+`crash; restart`, whatever was in flight — and ANY continuation from it that contains no
+failure event, finitely many interruptions (`crash`/`restart`/`reset`) and fork-structure
+events, leaves mrp up after the last of them, and is fair: it reaches a finished
+pipestance and stays there.  (Vocabulary: Props/C03 header.) -/
+theorem restart_completes {g : List NodeInfo} {s0 : State} {σ : Nat → State} {es : Nat → Ev}
+    (hr : Reach g s0) (hclean : CleanInv s0) (hac : Acyclic g) (hrun : Run s0 σ es)
+    (hnf : ∀ i, (es i).failing = false) {K : Nat}
+    (hK : ∀ i, K ≤ i → (es i).structural (σ i) = false) (hup : (σ K).phase ≠ .crashed)
+    (hfair : Fair σ) : ∃ M, K ≤ M ∧ ∀ j, M ≤ j → Finished (σ j) :=
+  interrupted_run_finishes hrun (reach_liveInv hr hclean) (by rw [reach_nodes hr]; exact hac)
+    hnf hK hup hfair
+
+/-- the same in `FullStageReset` mode: wiping whole Running/Failed nodes at restart (any
+subset of their objects, in any order) never wedges the pipestance -/
+theorem fullreset_restart_completes {g : List NodeInfo} {s0 : State} {σ : Nat → State}
+    {es : Nat → Ev} (hr : ReachFull g s0) (hclean : CleanInv s0) (hac : Acyclic g)
+    (hrun : Run s0 σ es) (hnf : ∀ i, (es i).failing = false) {K : Nat}
+    (hK : ∀ i, K ≤ i → (es i).structural (σ i) = false) (hup : (σ K).phase ≠ .crashed)
+    (hfair : Fair σ) : ∃ M, K ≤ M ∧ ∀ j, M ≤ j → Finished (σ j) :=
+  interrupted_run_finishes hrun (reachFull_liveInv hr hclean)
+    (by rw [reachFull_nodes hr]; exact hac) hnf hK hup hfair
+
+/-- the hypothesis `CleanInv` is kept by every event that is not a failure event
+(interruptions and resets included), in either mode: a history without failure events
+ends in a state `restart_completes` applies to -/
+theorem no_failure_keeps_clean {s : State} {e : Ev} (hen : enabled s e = true)
+    (hnf : e.failing = false) (h : CleanInv s) : CleanInv (apply s e) :=
+  cleanInv_step hen hnf h
+
+/-- `restart_completes_same` (design §4 C05; default reset mode): take two runs of the same
+acyclic graph from its initial state, both fair, both without failure events, both with
+finitely many interruptions and fork-structure events and with mrp up after the last one —
+say, one in which mrp is killed after arbitrary prefixes (any number of `crash`/`restart`
+with any of the resets `Pipestance.Reset`/`RestartLocalJobs` may perform) and an
+uninterrupted one.  Both finish, and from then on, whenever the two agree on what the
+ENVIRONMENT chose (fork sets, chunk counts, which forks were disabled — C01's
+schedule-freedom says the data determines these), the directory state of EVERY object of
+every stage fork is the same in both: the interrupted run ends with the same per-job
+outcome set.  (`Ev.benign`: no failure event, and chunk counts are not redefined while
+re-attaching — the model keeps them across `restart`.) -/
+theorem restart_completes_same {g : List NodeInfo} (hac : Acyclic g)
+    {σ : Nat → State} {es : Nat → Ev} (hrun : Run (init g) σ es)
+    (hb : ∀ i, (es i).benign (σ i) = true) {K : Nat}
+    (hK : ∀ i, K ≤ i → (es i).structural (σ i) = false) (hup : (σ K).phase ≠ .crashed)
+    (hfair : Fair σ)
+    {σ' : Nat → State} {es' : Nat → Ev} (hrun' : Run (init g) σ' es')
+    (hb' : ∀ i, (es' i).benign (σ' i) = true) {K' : Nat}
+    (hK' : ∀ i, K' ≤ i → (es' i).structural (σ' i) = false) (hup' : (σ' K').phase ≠ .crashed)
+    (hfair' : Fair σ') :
+    ∃ M, ∀ j, M ≤ j → Finished (σ j) ∧ Finished (σ' j) ∧
+      (SameChoices (σ j) (σ' j) →
+        ∀ n f r, n < g.length → f ∈ (σ j).forksOf n → (σ j).kind n ≠ .pipeline →
+          (σ j).dst ⟨n, f, r⟩ = (σ' j).dst ⟨n, f, r⟩) := by
+  have hnf := fun i => benign_nf (hb i)
+  have hnf' := fun i => benign_nf (hb' i)
+  obtain ⟨M, _, hM⟩ := interrupted_run_finishes hrun (liveInv_init g) hac hnf hK hup hfair
+  obtain ⟨M', _, hM'⟩ := interrupted_run_finishes hrun' (liveInv_init g) hac hnf' hK' hup' hfair'
+  have hl := run_liveInv hrun (liveInv_init g) hnf
+  have hl' := run_liveInv hrun' (liveInv_init g) hnf'
+  refine ⟨max M M', fun j hj => ⟨hM j (by omega), hM' j (by omega), ?_⟩⟩
+  intro hsame n f r hn hf hk
+  have hnodes : (σ j).nodes = g := run_nodes hrun j
+  have hnodes' : (σ' j).nodes = g := run_nodes hrun' j
+  exact same_outcomes (hnodes.trans hnodes'.symm) (hl j).obj (hl j).role (hl j).clean
+    (run_chainInv hrun hb j) (hl' j).obj (hl' j).role (hl' j).clean (run_chainInv hrun' hb' j)
+    (hM j (by omega)) (hM' j (by omega)) hsame n f r (by rw [hnodes]; exact hn) hf hk
+
+/-- what that common outcome is: in a finished state reached without failure events, every
+stage fork that ran has split, each defined chunk and join complete on disk and nothing
+beyond; a disabled fork has empty job directories (`expectedOutcome`) -/
+theorem finished_outcome {g : List NodeInfo} {σ : Nat → State} {es : Nat → Ev}
+    (hrun : Run (init g) σ es) (hb : ∀ i, (es i).benign (σ i) = true) (j : Nat)
+    (hfin : Finished (σ j)) (n f : Nat) (r : Role) (hn : n < g.length)
+    (hf : f ∈ (σ j).forksOf n) (hk : (σ j).kind n ≠ .pipeline) (hr : r ≠ .fork) :
+    (σ j).dst ⟨n, f, r⟩ =
+      expectedOutcome (((σ j).m ⟨n, f, .fork⟩).disk.has .complete) ((σ j).nch n f) r := by
+  have hl := run_liveInv hrun (liveInv_init g) (fun i => benign_nf (hb i)) j
+  have hd := nodeDone_iff.mp (hfin.2 n (by rw [run_nodes hrun j]; exact hn)).1 f hf
+  exact finished_fork_outcome hl.obj hl.role hl.clean (run_chainInv hrun hb j) hk hd r hr
+
 /-! ### non-vacuity -/
 
 def g1 : List NodeInfo := [{ kind := .splitstage, pre := [] }]
@@ -138,5 +225,89 @@ example : (match replay (init g1)
       [.fork 0 0, .nodestate 0 .running, .refresh, .launch ⟨0, 0, .split⟩, .crash, .restart] with
     | .ok s => enabled s (.reset ⟨0, 0, .split⟩)
     | .error _ => false) = true := by decide
+
+/-! ### non-vacuity of the completion theorems -/
+
+/-- the split is submitted, mrp is killed while it is queued, the restart resets it, the new
+incarnation submits it again and the stage runs to completion (no chunks) … -/
+def hI : List Ev :=
+  [.fork 0 0, .nodestate 0 .running, .refresh, .launch ⟨0, 0, .split⟩,
+   .crash, .restart, .reset ⟨0, 0, .split⟩, .refresh, .launch ⟨0, 0, .split⟩,
+   .joblog ⟨0, 0, .split⟩, .jobend ⟨0, 0, .split⟩ .complete, .R ⟨0, 0, .split⟩ .complete,
+   .launch ⟨0, 0, .join⟩, .joblog ⟨0, 0, .join⟩, .jobend ⟨0, 0, .join⟩ .complete,
+   .R ⟨0, 0, .join⟩ .complete, .W ⟨0, 0, .fork⟩ .complete, .nodestate 0 .complete]
+
+/-- … and the uninterrupted reference run -/
+def hU : List Ev :=
+  [.fork 0 0, .nodestate 0 .running, .refresh, .launch ⟨0, 0, .split⟩,
+   .joblog ⟨0, 0, .split⟩, .jobend ⟨0, 0, .split⟩ .complete, .R ⟨0, 0, .split⟩ .complete,
+   .launch ⟨0, 0, .join⟩, .joblog ⟨0, 0, .join⟩, .jobend ⟨0, 0, .join⟩ .complete,
+   .R ⟨0, 0, .join⟩ .complete, .W ⟨0, 0, .fork⟩ .complete, .nodestate 0 .complete]
+
+def σI : Nat → State := prefixState (init g1) hI
+def esI : Nat → Ev := fun i => hI.getD i .stepend
+def σU : Nat → State := prefixState (init g1) hU
+def esU : Nat → Ev := fun i => hU.getD i .stepend
+
+example : Acyclic g1 := topoSorted_acyclic (by decide)
+example : Run (init g1) σI esI := run_of_list _ _ (by decide)
+example : Run (init g1) σU esU := run_of_list _ _ (by decide)
+
+example : ∀ i, (esI i).benign (σI i) = true := by
+  intro i
+  by_cases h : i < hI.length
+  · revert i; decide
+  · have : hI[i]? = none := by simp; omega
+    simp [esI, List.getD, this, Ev.benign, Ev.failing]
+
+example : ∀ i, (esI i).failing = false := by
+  intro i
+  by_cases h : i < hI.length
+  · revert i; decide
+  · have : hI[i]? = none := by simp; omega
+    simp [esI, List.getD, this, Ev.failing]
+
+/-- the last interruption (`reset`) is event 6; from 7 on no structural event; mrp is up -/
+example : ∀ i, 7 ≤ i → (esI i).structural (σI i) = false := by
+  intro i h1
+  by_cases h : i < hI.length
+  · have : ∀ i, i < hI.length → 7 ≤ i → (esI i).structural (σI i) = false := by decide
+    exact this i h h1
+  · have : hI[i]? = none := by simp; omega
+    simp [esI, List.getD, this, Ev.structural]
+
+example : (σI 7).phase ≠ .crashed := by decide
+
+theorem σI_finished (i : Nat) (h : hI.length ≤ i) : Finished (σI i) := by
+  have : σI i = σI hI.length := by simp [σI, prefixState, List.take_of_length_le h]
+  rw [this]
+  refine ⟨by decide, fun n hn => ?_⟩
+  have hn' : n < 1 := hn
+  have : n = 0 := by omega
+  subst this
+  decide
+
+example : Fair σI := by
+  intro i hnf _
+  have hi : i < hI.length := by
+    apply Classical.byContradiction
+    intro h
+    exact hnf (σI_finished i (by omega))
+  exact ⟨17, by have : hI.length = 18 := rfl; omega, by decide⟩
+
+/-- the interrupted run is a run from a reachable clean state after `crash; restart`
+(hypotheses of `restart_completes` at `s0 = σI 6`) -/
+example : CleanInv (σI 6) := by
+  intro n f r
+  have : ∀ o, (σI 6).m o = (σI 6).m o := fun _ => rfl
+  simp only [σI, prefixState, hI, List.take, List.foldl, apply, init, State.updMeta, State.m,
+    aset, aget, amap, List.map, reload, put, SSet.add, SSet.has]
+  split <;> simp
+
+/-- both end finished, agree on the environment's choices, and indeed on every directory -/
+example : SameChoices (σI 18) (σU 13) := by decide
+example : (σI 18).dst ⟨0, 0, .split⟩ = (σU 13).dst ⟨0, 0, .split⟩ ∧
+    (σI 18).dst ⟨0, 0, .join⟩ = some .complete ∧ (σI 18).dst ⟨0, 0, .chunk 0⟩ = none ∧
+    launchCount (σI 18) ⟨0, 0, .split⟩ = 2 ∧ launchCount (σU 13) ⟨0, 0, .split⟩ = 1 := by decide
 
 end Props.C05
